@@ -129,6 +129,7 @@ func (u *Unit) execRangeMap(n *ast.RangeStmt, mt *types.Map, x Term, lb *Block, 
 	head.declare(vis, visSort)
 	head.named["rangevisited"] = Term{S: vis, Sort: visSort}
 	u.assumeInvariants(lb, head, pos)
+	u.assumeLoopFrame(head)
 	// one more key: live and not yet visited
 	hd := u.newEv(head)
 	dom, val, _ := hd.mapHeaps(base, ks, vs)
@@ -158,6 +159,7 @@ func (u *Unit) execRangeMap(n *ast.RangeStmt, mt *types.Map, x Term, lb *Block, 
 	endIter := func(s *State) {
 		s.named["rangevisited"] = Term{S: app("store", vis, k, "true"), Sort: visSort}
 		u.checkInvariants(lb, s, pos, "preserve", head)
+		u.checkLoopFrame(lb, s)
 	}
 	bf := Flow{next: endIter, cont: endIter, brk: f.next, ret: f.ret}
 	u.exec(n.Body, body, bf)
